@@ -73,6 +73,13 @@ def response_body(ex):
     return r.status, _decode(r.headers, r.read())
 
 
+def is_operation_request(ex) -> bool:
+    try:
+        return b'OperationHandleRef' in request_body(ex)
+    except Exception:  # noqa: BLE001
+        return False
+
+
 def info_of(node):
     """InvocationInfo element -> [id, state code, error code, has message]"""
     def txt(name):
@@ -179,6 +186,13 @@ class ProvWorld:
         self.worker = self.reg._worker
         product = self.prov.product_lookup['Sco.mds0']
         self.reg.check_invocation_timeouts = lambda: None      # no timeout handlers firing from the idle worker
+        # no background MDIB transactions while MdibVersion is observed: the alert system self-check thread of the tutorial
+        # role provider is told to stop (it is still inside its 1 s start delay)
+        for sco_handle, prod in self.prov.product_lookup.items():
+            for rp in getattr(prod, '_ordered_role_providers', []):
+                ev = getattr(rp, '_stop_worker', None)
+                if ev is not None:
+                    ev.set()
         self.worker._set_service = NotifyProxy(self.worker._set_service, self.ctl)
         self.queue_cap = self.worker._operations_queue.maxsize
         q = self.worker._operations_queue
@@ -455,8 +469,9 @@ class ProvWorld:
                 except Exception as ex:  # noqa: BLE001
                     exc = type(ex).__name__
                 ex_rec = None
-                for e in self.w.net.log[n0:]:
-                    if e.netloc == self.provider_netloc and e.method == 'POST':
+                for e in list(self.w.net.log[n0:]):
+                    # other traffic to the provider (subscription renewals of the consumers' housekeeping) is skipped
+                    if e.netloc == self.provider_netloc and e.method == 'POST' and is_operation_request(e):
                         ex_rec = e
                         break
                 resp = parse_response(ex_rec) if ex_rec is not None else [0]
@@ -562,10 +577,8 @@ def run_conc(spec):
         reports = [pw.parts_for(ci, n0) for ci in range(len(rnd))]
         wire = []
         for ex in pw.w.net.log[n0:]:
-            if ex.netloc == pw.provider_netloc and ex.method == 'POST':
-                body_ = request_body(ex)
-                if b'OperationHandleRef' in body_:
-                    wire.append([ex.client, parse_response(ex)])
+            if ex.netloc == pw.provider_netloc and ex.method == 'POST' and is_operation_request(ex):
+                wire.append([ex.client, parse_response(ex)])
         pw.quiesce()
         out.append({'first_id': first_id, 'results': results, 'reports': reports, 'wire': wire, 'alive': alive,
                     'lock_trace': pw.lock_trace, 'errors': pw.ctl.errors,
